@@ -46,6 +46,10 @@ FIXED = {
  'pf_postfix_loose': "token N P X; start s; s: e; e: e P e | e X | N;",
  'pf_postfix_tight': "token N P X; start s; s: e; e: e X | e P e | N;",
  'pf_call': "token N P L R; start s; s: e; e: e L e R | e P e | N;",
+ 'pf_single_left': "token N P; start s; s: e; e: e P e | N;",
+ 'pf_single_left_ops': "token N P M L R; start s; s: e; e: e (P | M) e | N | L e R;",
+ 'pf_single_postfix': "token N X; start s; s: e; e: e X | N;",
+ 'pf_single_prefix_infix': "token N P M; start s; s: e; e: M e | N;",
  'pf_all_left': "token N P M T; start s; s: e; e: e T e | e P e | e M e | N;",
 }
 
